@@ -1073,13 +1073,38 @@ theorem old_hash_inconsistent :
       totalHashOld (.rat (1/2)) ≠ totalHashOld (.float (.fin 1 (-1)))) := by
   decide +kernel
 
-/-! ## 8. statements not proved: nested DICTIONARIES as keys -/
+/-! ## 8. the full-strength statement: EVERY key, nested dictionaries included
+(proved in Theorems/C09Keys.lean as `hash_consistent` / `hash_consistent_holds`) -/
 
-/-- full-strength hash consistency, for every valid key incl. dictionaries nested as keys (needs
-a multiset argument over the entries of both dictionaries on top of `dict_hash_order_independent`;
-covered by the differential run only) -/
+/- well-formed hashable keys of ANY nesting, dictionaries included: what `to_key` can produce.
+`Small` integers hold an i64; a dictionary used as (part of) a key is a real `HashMap`: its keys and
+values are keys again and no two of its stored keys hit each other. -/
+mutual
+def KeyWF : Val → Prop
+  | .null => True
+  | .num n => n.WF
+  | .str _ => True
+  | .bytes _ => True
+  | .vec xs => ∀ n ∈ xs, NNum.WF n
+  | .list xs => KeyWFList xs
+  | .dict kvs _ => KeyWFEntries kvs ∧
+      kvs.Pairwise (fun e f => ¬ keyHit e.1 f.1 = true ∧ ¬ keyHit f.1 e.1 = true)
+  | .func _ => False
+def KeyWFList : List Val → Prop
+  | [] => True
+  | x :: xs => KeyWF x ∧ KeyWFList xs
+def KeyWFEntries : List (Val × Val) → Prop
+  | [] => True
+  | (k, v) :: rest => KeyWF k ∧ KeyWF v ∧ KeyWFEntries rest
+end
+
+
+/-- full-strength hash consistency: for every pair of keys `to_key` can produce — any nesting of
+lists, vectors AND dictionaries.  (`KeyWF` is the representation invariant of such keys; plain
+`validKey` is not enough: an association list with two `≈` stored keys is not a `HashMap`, and for
+such a non-map the claim is false.) -/
 def hash_consistent_statement : Prop :=
-  ∀ a b : Val, validKey a = true → validKey b = true → totalEq a b = true → writes a = writes b
+  ∀ a b : Val, KeyWF a → KeyWF b → totalEq a b = true → writes a = writes b
 
 /-! ## non-vacuity -/
 example : KeyOK (.list [.num (.rat (1/2)), .vec [.float (.fin 1 (-1))], .str [97]]) := by
